@@ -18,6 +18,9 @@ CHECKS = {p: _trace_only(p) for p in checks.PROFILES}
 from . import hands_check  # noqa: E402
 CHECKS['C04'] = hands_check.check_C04
 CHECKS['C05'] = hands_check.check_C05
+CHECKS['C09'] = checks.check_C09
+CHECKS['C15'] = checks.check_C15
+CHECKS['C12'] = checks.check_C12
 
 
 def replay(pid: str, path: str) -> int:
